@@ -217,17 +217,17 @@ func specNamesSmall(l []string) bool {
 //@ loop 2 invariant[flds] using(len, flds) forall(0, len(ctx.GlobalSymbolList)+iter, func(j int) bool { return specUserFields(allEntries[4+j]) })
 //@ loop 2 invariant[syms] using(len, tabptr, syms, convertNameToBytes.mono) forall(0, len(ctx.GlobalSymbolList), func(j int) bool { return specUserSymM(allEntries[4+j], stringTableOffsetMap, ctx.GlobalSymbolList[j], specHas32(ctx.SymTable, ctx.GlobalSymbolList[j]), ctx.SymTable[ctx.GlobalSymbolList[j]]) })
 //@ loop 2 invariant[exts] using(len, tabptr, exts, convertNameToBytes.nameM, convertNameToBytes.mono) forall(len(ctx.GlobalSymbolList), len(ctx.GlobalSymbolList)+iter, func(j int) bool { return specUserSymM(allEntries[4+j], stringTableOffsetMap, ctx.ExternSymbolList[j-len(ctx.GlobalSymbolList)], false, 0) })
-//@ ensures[count] using(len) len(result0) == 4+len(ctx.GlobalSymbolList)+len(ctx.ExternSymbolList)
+//@ ensures[count@C08] using(len) len(result0) == 4+len(ctx.GlobalSymbolList)+len(ctx.ExternSymbolList)
 //@ ensures[file@C09] using(sec, file, len, prefix, sort) specFileSym(result0[0], ctx.SourceFileName)
 //@ ensures[section1] using(sec, shape, secmain, secaux1, len, prefix, sort) specSectionSym(result0[1], 0, textDataSize)
 //@ ensures[section2] using(sec, shape, secmain, secaux2, len, prefix, sort) specSectionSym(result0[2], 1, dataDataSize)
 //@ ensures[section3] using(sec, shape, secmain, secaux3, len, prefix, sort) specSectionSym(result0[3], 2, bssDataSize)
-//@ ensures[aux.fixed] using(sec, shape, file, secmain, secaux1, secaux2, secaux3, len, prefix, sort) specAuxOK(result0[0]) && specAuxOK(result0[1]) && specAuxOK(result0[2]) && specAuxOK(result0[3])
+//@ ensures[aux.fixed@C08] using(sec, shape, file, secmain, secaux1, secaux2, secaux3, len, prefix, sort) specAuxOK(result0[0]) && specAuxOK(result0[1]) && specAuxOK(result0[2]) && specAuxOK(result0[3])
 //@ ensures[user] using(len, flds, sort) forall(0, len(result0)-4, func(a int) bool { return specUserFields(result0[4+a]) && specAuxOK(result0[4+a]) })
-//@ ensures[order] using(len, sort) forall(0, len(result0)-4, func(a int) bool { return forall(a+1, len(result0)-4, func(b int) bool { return (result0[4+a].Main.SectionNumber == 0 ==> result0[4+b].Main.SectionNumber == 0) && (result0[4+b].Main.SectionNumber != 0 ==> result0[4+a].Main.Value <= result0[4+b].Main.Value) }) })
-//@ ensures[names.range] using(len, sort) forall(0, len(result0)-4, func(a int) bool { return 0 <= vcSortPerm(a) && vcSortPerm(a) < len(result0)-4 })
-//@ ensures[names.globals] using(len, tabptr, syms, sort) forall(0, len(result0)-4, func(a int) bool { return vcSortPerm(a) < len(ctx.GlobalSymbolList) ==> specUserVals(result0[4+a], ctx.GlobalSymbolList[vcSortPerm(a)], specHas32(ctx.SymTable, ctx.GlobalSymbolList[vcSortPerm(a)]), ctx.SymTable[ctx.GlobalSymbolList[vcSortPerm(a)]]) })
-//@ ensures[names.externs] using(len, tabptr, exts, sort) forall(0, len(result0)-4, func(a int) bool { return vcSortPerm(a) >= len(ctx.GlobalSymbolList) ==> specUserVals(result0[4+a], ctx.ExternSymbolList[vcSortPerm(a)-len(ctx.GlobalSymbolList)], false, 0) })
+//@ ensures[order@C09] using(len, sort) forall(0, len(result0)-4, func(a int) bool { return forall(a+1, len(result0)-4, func(b int) bool { return (result0[4+a].Main.SectionNumber == 0 ==> result0[4+b].Main.SectionNumber == 0) && (result0[4+b].Main.SectionNumber != 0 ==> result0[4+a].Main.Value <= result0[4+b].Main.Value) }) })
+//@ ensures[names.range@C09] using(len, sort) forall(0, len(result0)-4, func(a int) bool { return 0 <= vcSortPerm(a) && vcSortPerm(a) < len(result0)-4 })
+//@ ensures[names.globals@C09] using(len, tabptr, syms, sort) forall(0, len(result0)-4, func(a int) bool { return vcSortPerm(a) < len(ctx.GlobalSymbolList) ==> specUserVals(result0[4+a], ctx.GlobalSymbolList[vcSortPerm(a)], specHas32(ctx.SymTable, ctx.GlobalSymbolList[vcSortPerm(a)]), ctx.SymTable[ctx.GlobalSymbolList[vcSortPerm(a)]]) })
+//@ ensures[names.externs@C09] using(len, tabptr, exts, sort) forall(0, len(result0)-4, func(a int) bool { return vcSortPerm(a) >= len(ctx.GlobalSymbolList) ==> specUserVals(result0[4+a], ctx.ExternSymbolList[vcSortPerm(a)-len(ctx.GlobalSymbolList)], false, 0) })
 //@ assigns Buffer.buf, map[string]uint32, SymbolEntry[]
 
 // specSectionMain / specSectionAux: the two halves of specSectionSym.
